@@ -515,6 +515,95 @@ example : clientConfig { ipOk := fun _ => true, pathExists := fun _ => true }
   clientConfig { ipOk := fun _ => true, pathExists := fun _ => true }
     ((CGroup.file [120]).tokens ++ (CGroup.down true).tokens ++ (CGroup.blk true [53, 55]).tokens) := by decide
 
+/-! ### client: the error branches -/
+
+/-- a value flag of the client whose value is not acceptable: unparsable address, port, block size, window
+size or time-out, a receive directory that does not exist -/
+def CGroup.badValue (o : Oracles) : CGroup → Bool
+  | .ip _ v => !o.ipOk v
+  | .port _ v => (parseUnsigned 65536 v).isNone
+  | .blk _ v => (parseUnsigned Gen.usizeBound v).isNone
+  | .win _ v => (parseUnsigned 65536 v).isNone
+  | .tmo _ v => (parseUnsigned Gen.usizeBound v).isNone
+  | .rd _ v => !o.pathExists v
+  | _ => false
+
+theorem parse_cgroup_bad (o : Oracles) (g : CGroup) (rest : List Bytes) (c : CCfg) (hbad : g.badValue o = true) :
+    parseClientArgs o (g.tokens ++ rest) c = .err := by
+  cases g with
+  | ip l v =>
+    simp only [CGroup.badValue] at hbad
+    cases l <;> simp only [CGroup.tokens, pick] <;> rw [parseClientArgs.eq_def] <;> simp_all [fI]
+  | port l v =>
+    simp only [CGroup.badValue] at hbad
+    cases l <;> simp only [CGroup.tokens, pick] <;> rw [parseClientArgs.eq_def] <;>
+      simp [fI, fP] <;> (split <;> simp_all)
+  | blk l v =>
+    simp only [CGroup.badValue] at hbad
+    cases l <;> simp only [CGroup.tokens, pick] <;> rw [parseClientArgs.eq_def] <;>
+      simp [fI, fP, fB] <;> (split <;> simp_all)
+  | win l v =>
+    simp only [CGroup.badValue] at hbad
+    cases l <;> simp only [CGroup.tokens, pick] <;> rw [parseClientArgs.eq_def] <;>
+      simp [fI, fP, fB, fW] <;> (split <;> simp_all)
+  | tmo l v =>
+    simp only [CGroup.badValue] at hbad
+    cases l <;> simp only [CGroup.tokens, pick] <;> rw [parseClientArgs.eq_def] <;>
+      simp [fI, fP, fB, fW, fT] <;> (split <;> simp_all)
+  | rd l v =>
+    simp only [CGroup.badValue] at hbad
+    cases l <;> simp only [CGroup.tokens, pick] <;> rw [parseClientArgs.eq_def] <;>
+      simp_all [fI, fP, fB, fW, fT, fRD]
+  | up l => simp [CGroup.badValue] at hbad
+  | down l => simp [CGroup.badValue] at hbad
+  | keep => simp [CGroup.badValue] at hbad
+  | file a => simp [CGroup.badValue] at hbad
+
+/-- **client error**: the first value flag with an unacceptable value (unparsable address, port, block size,
+window size, time-out; non-existent receive directory) makes the whole vector fail, whatever precedes
+and whatever follows it -/
+theorem c17_client_invalid_value_is_error (o : Oracles) (gs : List CGroup) (g : CGroup) (rest : List Bytes) (c : CCfg)
+    (h : ∀ x ∈ gs, x.valid o = true) (hg : g.badValue o = true) :
+    parseClientArgs o (gs.flatMap CGroup.tokens ++ g.tokens ++ rest) c = .err := by
+  induction gs generalizing c with
+  | nil => simp only [List.flatMap_nil, List.nil_append]; exact parse_cgroup_bad o g rest c hg
+  | cons x xs ih =>
+    simp only [List.flatMap_cons, List.append_assoc]
+    rw [parse_cgroup o x _ c (h x (by simp))]
+    have := ih (x.apply c) (fun y hy => h y (by simp [hy]))
+    simpa [List.append_assoc] using this
+
+/-- **client error**: a value-taking flag at the end of the vector fails, whatever valid groups precede it -/
+theorem c17_client_missing_value_is_error (o : Oracles) (gs : List CGroup) (a : Bytes) (c : CCfg)
+    (h : ∀ x ∈ gs, x.valid o = true) (ha : a ∈ fI ++ fP ++ fB ++ fW ++ fT ++ fRD) :
+    parseClientArgs o (gs.flatMap CGroup.tokens ++ [a]) c = .err := by
+  induction gs generalizing c with
+  | nil =>
+    simp only [List.flatMap_nil, List.nil_append]
+    simp only [List.mem_append] at ha
+    rw [parseClientArgs.eq_def]
+    rcases ha with ((((ha | ha) | ha) | ha) | ha) | ha
+    · simp [ha]
+    · by_cases h1 : a ∈ fI <;> simp [ha, h1]
+    · by_cases h1 : a ∈ fI <;> by_cases h2 : a ∈ fP <;> simp [ha, h1, h2]
+    · by_cases h1 : a ∈ fI <;> by_cases h2 : a ∈ fP <;> by_cases h3 : a ∈ fB <;> simp [ha, h1, h2, h3]
+    · by_cases h1 : a ∈ fI <;> by_cases h2 : a ∈ fP <;> by_cases h3 : a ∈ fB <;> by_cases h4 : a ∈ fW <;>
+        simp [ha, h1, h2, h3, h4]
+    · by_cases h1 : a ∈ fI <;> by_cases h2 : a ∈ fP <;> by_cases h3 : a ∈ fB <;> by_cases h4 : a ∈ fW <;>
+        by_cases h5 : a ∈ fT <;> simp [ha, h1, h2, h3, h4, h5]
+  | cons x xs ih =>
+    simp only [List.flatMap_cons, List.append_assoc]
+    rw [parse_cgroup o x _ c (h x (by simp))]
+    exact ih (x.apply c) (fun y hy => h y (by simp [hy]))
+
+/-! non-vacuity: `-u -p 70000` and `file -b` fail -/
+example : clientConfig { ipOk := fun _ => true, pathExists := fun _ => true }
+    ((CGroup.up false).tokens ++ (CGroup.port false [55, 48, 48, 48, 48]).tokens) = .err := by decide
+example : (CGroup.port false [55, 48, 48, 48, 48]).badValue { ipOk := fun _ => true, pathExists := fun _ => true } = true := by
+  decide
+example : clientConfig { ipOk := fun _ => true, pathExists := fun _ => true }
+    ((CGroup.file [120]).tokens ++ [[45, 98]]) = .err := by decide
+
 /-- client defaults: 127.0.0.1 (`ip = none`), port 69, blksize 512, windowsize 1, timeout 5 s, download,
 clean-on-error -/
 theorem c17_client_defaults (o : Oracles) :
